@@ -219,6 +219,7 @@ namespace occa {
                         const occa::json &props) {
    if (!isInitialized() && !src.isInitialized()) return;
     assertInitialized();
+    src.assertInitialized();
 
     const int dtypeSize = modeMemory->dtype_->bytes();
     const dim_t bytes  = dtypeSize * ((count == -1) ? length() : count);
@@ -275,6 +276,7 @@ namespace occa {
                       const occa::json &props) const {
     if (!isInitialized() && !dest.isInitialized()) return;
     assertInitialized();
+    dest.assertInitialized();
 
     const int dtypeSize = modeMemory->dtype_->bytes();
     const dim_t bytes  = dtypeSize * ((count == -1) ? length() : count);
